@@ -9,7 +9,6 @@ import (
 
 	"github.com/Vedant9500/WTF/internal/constants"
 	"github.com/Vedant9500/WTF/internal/nlp"
-	"github.com/Vedant9500/WTF/internal/utils"
 )
 
 // SearchResult represents a command with its relevance score
@@ -49,7 +48,7 @@ func (db *Database) SearchWithOptions(query string, options SearchOptions) []Sea
 	}
 
 	queryWords := strings.Fields(strings.ToLower(query))
-	results := make([]SearchResult, 0, utils.Min(len(db.Commands), options.Limit*constants.ResultsBufferMultiplier))
+	results := make([]SearchResult, 0, resultBufferCap(len(db.Commands), options.Limit))
 
 	currentPlatform := getCurrentPlatform()
 
@@ -73,7 +72,7 @@ func (db *Database) SearchWithPipelineOptions(query string, options SearchOption
 	}
 
 	queryWords := strings.Fields(strings.ToLower(query))
-	results := make([]SearchResult, 0, utils.Min(len(db.Commands), options.Limit*constants.ResultsBufferMultiplier))
+	results := make([]SearchResult, 0, resultBufferCap(len(db.Commands), options.Limit))
 	currentPlatform := getCurrentPlatform()
 
 	for i := range db.Commands {
@@ -105,6 +104,16 @@ func (db *Database) SearchWithPipelineOptions(query string, options SearchOption
 	}
 
 	return db.sortAndLimitResults(results, options.Limit)
+}
+
+// resultBufferCap is the capacity hint for a result buffer: a few times the
+// limit, but never more than the number of candidates. It is computed by
+// division so that a very large limit cannot overflow into a negative capacity.
+func resultBufferCap(candidates, limit int) int {
+	if limit < 0 || limit > candidates/constants.ResultsBufferMultiplier {
+		return candidates
+	}
+	return limit * constants.ResultsBufferMultiplier
 }
 
 // sortAndLimitResults sorts results by score and applies limit
